@@ -133,11 +133,11 @@ def cheap_einfo():
     import traceback as _tb
     if not isinstance(be.traceback, _CheapTraceback):
         be.traceback = _CheapTraceback(_tb)
-        real_tb = be.Traceback
+        real_init = be.Traceback.__init__
 
-        def traceback_untraced(tb, *a, **k):
-            # the real einfo.Traceback, run outside the tracer: it copies code
+        def init_untraced(self, tb, *a, **k):
+            # the real einfo.Traceback constructor, run outside the tracer: it copies code
             # objects of concrete frames (slow under tracing, nothing symbolic)
             with untraced():
-                return real_tb(tb, *a, **k)
-        be.Traceback = traceback_untraced
+                real_init(self, tb, *a, **k)
+        be.Traceback.__init__ = init_untraced
